@@ -402,6 +402,12 @@ func (ta *tarAppender) addTarFile(path, name string) error {
 	return nil
 }
 
+// isWithin reports whether the cleaned path is dir or lexically beneath it.
+func isWithin(dir, path string) bool {
+	rel, err := filepath.Rel(dir, path)
+	return err == nil && rel != ".." && !strings.HasPrefix(rel, ".."+string(os.PathSeparator))
+}
+
 func createTarFile(path, extractDir string, hdr *tar.Header, reader io.Reader, opts *TarOptions) error {
 	var (
 		Lchown                     = true
@@ -470,7 +476,7 @@ func createTarFile(path, extractDir string, hdr *tar.Header, reader io.Reader, o
 		// #nosec G305 -- The target path is checked for path traversal.
 		targetPath := filepath.Join(extractDir, hdr.Linkname)
 		// check for hardlink breakout
-		if !strings.HasPrefix(targetPath, extractDir) {
+		if !isWithin(extractDir, targetPath) {
 			return breakoutError(fmt.Errorf("invalid hardlink %q -> %q", targetPath, hdr.Linkname))
 		}
 		if err := os.Link(targetPath, path); err != nil {
@@ -484,7 +490,7 @@ func createTarFile(path, extractDir string, hdr *tar.Header, reader io.Reader, o
 
 		// the reason we don't need to check symlinks in the path (with FollowSymlinkInScope) is because
 		// that symlink would first have to be created, which would be caught earlier, at this very check:
-		if !strings.HasPrefix(targetPath, extractDir) {
+		if !isWithin(extractDir, targetPath) {
 			return breakoutError(fmt.Errorf("invalid symlink %q -> %q", path, hdr.Linkname))
 		}
 		if err := os.Symlink(hdr.Linkname, path); err != nil {
